@@ -14,17 +14,22 @@
   Room version 12:
   * `v12_create_roomID`, `v12_auth_first`
   Round trip:
-  * `reparse_same_partial`   an event that parses as trusted and as untrusted input (content hash valid) is the
-                             same event both ways.  `_partial`: see the comment at the theorem (no model of
-                             EventBuilder.Build; the build-specific half is covered by correspondence ops only).
+  * `build_roundtrip`        an event produced by `EventBuilder.Build` (model: VModel/EventBuild.lean) re-parses from
+                             its JSON as untrusted input, as trusted input and through the headered form, each time
+                             successfully, to the same event (ID, type, sender, room, state key, content, depth,
+                             timestamp, prev / auth references), not redacted, passing `CheckFields`
+  * `reparse_same_partial`   (round 1) a text accepted as trusted and as untrusted input (content hash valid) gives
+                             the same event both ways
+  * `build_checked_partial`  (round 1) `Build`'s result passed `CheckFields`, is not redacted, is a trusted parse
 -/
 import VProofs.RedactCongr
 import VProofs.EventParse
 import VProofs.B64
 import VProps.C04
 import VModel.EventBuild
+import VProofs.EventBuildRoundtrip
 namespace V.C03
-open V V.Json V.GoJson V.Redact V.EventParse V.RedactProofs V.EventProofs
+open V V.Json V.GoJson V.Redact V.EventParse V.RedactProofs V.EventProofs V.BuildProofs
 
 /-! ## Table facts -/
 
@@ -535,12 +540,9 @@ theorem parseTrusted_ok {H : Bytes → Bytes} {ver text : Bytes} {red : Bool} {e
     marked redacted and has passed `CheckFields`; if the text has no `event_id` member (no case
     variant either) the two events have the same (computed) event ID.
 
-    `_partial`: C03 speaks of events *produced by `EventBuilder.Build`*.  `Build` ends in
-    `NewEventFromTrustedJSON(canonical JSON with a valid content hash)` + `CheckFields`, so its
-    output satisfies `ht` and `hh`; that the untrusted (and headered) re-parse of such an output
-    *succeeds* is not derived here — there is no model of `Build`'s struct marshalling / signing —
-    and is covered by the correspondence op `event.roundtrip` on real `Build` outputs (all 16
-    versions), as are the headered form and `Build` itself. -/
+    `_partial`: a statement about arbitrary texts under the hypotheses `ht`, `hu`, `hh`; that the
+    output of `EventBuilder.Build` satisfies them — and the full round trip, headered form included —
+    is `build_roundtrip` below. -/
 theorem reparse_same_partial {H : Bytes → Bytes} {ver text : Bytes} {e e' : PDU}
     (ht : parseTrusted H ver false text = .ok e) (hu : parseUntrusted H ver text = .ok e')
     (hh : ∀ row fmt p kvs, rowOf ver = some row → fmtOfName row.newEventFromUntrustedJSONFunc = some fmt →
@@ -642,46 +644,340 @@ theorem reparse_same_partial {H : Bytes → Bytes} {ver text : Bytes} {e e' : PD
 
 /-! ## `EventBuilder.Build` -/
 
-/-- **What `Build` returns has passed its own field checks, is not marked redacted, and is the
-    trusted parse of a canonical JSON text** (whose value is `e.obj`).
-    `_partial` with respect to C03's round-trip clause: that this text then re-parses successfully as
-    untrusted / headered input to the same event is `reparse_same_partial` (under its hypotheses)
-    plus the correspondence ops `event.build` / `event.roundtrip`; it is not derived from the model of
-    `Build` here. -/
-theorem build_checked_partial {H : Bytes → Bytes} {ver : Bytes} {pe : EventBuild.Proto} {now : Nat}
-    {origin kid rand16 sig : Bytes} {e : PDU} (h : EventBuild.build H ver pe now origin kid rand16 sig = .ok e) :
-    checkFields e = .ok () ∧ e.redacted = false ∧ e.ver = ver ∧ e.json = encodeCanon (.obj e.obj) ∧
-    ∃ row, rowOf ver = some row ∧ trustedCore H row ver false e.json (.obj e.obj) = .ok e := by
+/-- `Build` inverted: the version row, the signed members, the canonical text read back, the
+    trusted constructor, `CheckFields` -/
+theorem build_ok {H : Bytes → Bytes} {ver : Bytes} {pe : EventBuild.Proto} {now : Nat} {origin kid rand16 sig : Bytes} {e : PDU}
+    (h : EventBuild.build H ver pe now origin kid rand16 sig = .ok e) :
+    ∃ row signed p, rowOf ver = some row ∧ EventBuild.signedMembers H row ver pe now origin kid rand16 sig = .ok signed ∧
+      enforcedOkVal row (.obj signed) = some true ∧ (JVal.obj signed).noDupKeys = true ∧
+      parse (encodeCanon (.obj signed)) = some p ∧
+      trustedCore H row ver false (encodeCanon (.obj signed)) p.toJVal = .ok e ∧ checkFields e = .ok () := by
   unfold EventBuild.build at h
   split at h
   · cases h
   · rename_i row hrow
     split at h
     · cases h
-    · rename_i signed _
+    · rename_i signed hsm
       unfold EventBuild.finishBuild at h
       split at h
       · cases h
       · cases h
-      · split at h
+      · rename_i henf
+        split at h
         · cases h
-        · split at h
+        · rename_i hnd
+          split at h
           · cases h
-          · rename_i e1 ht
+          · rename_i p hp
             split at h
             · cases h
-            · rename_i hcf
-              cases h
-              obtain ⟨fmt, e0, _, hc, hs, _⟩ := trustedCore_ok ht
-              obtain ⟨kvs, hj, g1, g2, g3, g4, g5, g6⟩ := construct_ok hc
-              have hk : kvs = signed := by injection hj with h1; exact h1.symm
-              have hobj : e.obj = e0.obj := by rw [hs]
-              have hjson : e.json = e0.json := by rw [hs]
-              have hver : e.ver = e0.ver := by rw [hs]
-              have hred : e.redacted = e0.redacted := by rw [hs]
-              refine ⟨hcf, by rw [hred, g3], by rw [hver, g1], by rw [hjson, hobj, g4, g5, hk], row, hrow, ?_⟩
-              rw [hjson, hobj, g4, g5, hk]
-              exact ht
+            · rename_i e1 ht
+              split at h
+              · cases h
+              · rename_i hcf
+                cases h
+                exact ⟨row, signed, p, hrow, hsm, henf, by simpa using hnd, hp, ht, hcf⟩
+
+/-- **What `Build` returns has passed its own field checks, is not marked redacted, and is the
+    trusted parse of a canonical JSON text** (kept from round 1; `build_roundtrip` below is the full
+    round-trip statement). -/
+theorem build_checked_partial {H : Bytes → Bytes} {ver : Bytes} {pe : EventBuild.Proto} {now : Nat}
+    {origin kid rand16 sig : Bytes} {e : PDU} (h : EventBuild.build H ver pe now origin kid rand16 sig = .ok e) :
+    checkFields e = .ok () ∧ e.redacted = false ∧ e.ver = ver ∧ (ProtoOk pe → e.json = encodeCanon (.obj e.obj)) ∧
+    ∃ row, rowOf ver = some row ∧ trustedCore H row ver false e.json (.obj e.obj) = .ok e := by
+  obtain ⟨row, signed, p, hrow, hsm, _, hnd, hp, ht, hcf⟩ := build_ok h
+  obtain ⟨fmt, e0, _, hc, hs, _⟩ := trustedCore_ok ht
+  obtain ⟨kvs, hj, g1, g2, g3, g4, g5, g6⟩ := construct_ok hc
+  have hobj : e.obj = e0.obj := by rw [hs]
+  have hjson : e.json = e0.json := by rw [hs]
+  have hver : e.ver = e0.ver := by rw [hs]
+  have hred : e.redacted = e0.redacted := by rw [hs]
+  refine ⟨hcf, by rw [hred, g3], by rw [hver, g1], ?_, row, hrow, ?_⟩
+  · intro hpe
+    have hpj := parse_canon_text (signed_numsOk hpe hsm) hp
+    rw [hpj] at hj
+    have hk : kvs = canonMembers signed := by injection hj with h1; exact h1.symm
+    rw [hjson, hobj, g4, g5, hk, ← canon_obj, encodeCanon_canon _ hnd]
+  · rw [hjson, hobj, g4, g5, ← hj]
+    exact ht
+
+/-- per version: the with-ID constructor fills the same struct as the trusted one; the V1 struct is
+    used exactly by event format 1; the event format is 1 or 2 -/
+theorem build_table_facts : ∀ row ∈ VGen.roomVersions,
+    (fmtOfName row.newEventFromTrustedJSONWithEventIDFunc == fmtOfName row.newEventFromTrustedJSONFunc &&
+     ((fmtOfName row.newEventFromTrustedJSONFunc == some Fmt.v1) == (row.eventFormat == 1)) &&
+     (row.eventFormat == 1 || row.eventFormat == 2)) = true := by
+  decide
+
+theorem build_row_facts {ver : Bytes} {row : VGen.VersionRow} {fmt : Fmt} (hrow : rowOf ver = some row)
+    (hf : fmtOfName row.newEventFromTrustedJSONFunc = some fmt) :
+    fmtOfName row.newEventFromTrustedJSONWithEventIDFunc = some fmt ∧ (fmt ≠ .v1 → (row.eventFormat == 2) = true) := by
+  have := build_table_facts row (List.mem_of_find?_eq_some hrow)
+  simp only [Bool.and_eq_true, beq_iff_eq, Bool.or_eq_true] at this
+  obtain ⟨⟨h1, h2⟩, h3⟩ := this
+  refine ⟨by rw [h1, hf], fun hne => ?_⟩
+  rw [hf] at h2
+  have : (some fmt == some Fmt.v1) = false := by simp [hne]
+  rw [this] at h2
+  rcases h3 with h3 | h3
+  · rw [h3] at h2; simp at h2
+  · simp [h3]
+
+/-- the four keys a receiver strips are read by no keep struct: the redaction does not see them -/
+theorem redactJSON_strip4 (ver : Bytes) (kvs : EventParse.Obj) :
+    redactJSON ver (.obj (deleteKeys strip4 kvs)) = redactJSON ver (.obj kvs) := by
+  apply redactJSON_obj_eq
+  intro a ha
+  have hT := algoOf_tableOk ha
+  simp only [tableOk, Bool.and_eq_true] at hT
+  obtain ⟨⟨⟨⟨⟨hu1, hu2⟩, hu3⟩, hu4⟩, _⟩, _⟩ := hT
+  simp only [strip4, deleteKeys, List.foldl_cons, List.foldl_nil]
+  rw [redactObj_deleteFirst a _ _ hu1, redactObj_deleteFirst a _ _ hu2, redactObj_deleteFirst a _ _ hu4,
+    redactObj_deleteFirst a _ _ hu3]
+
+theorem ite_err_inv {c : Prop} [Decidable c] {x : Err} {B : Except Err Unit}
+    (h : (if c then Except.error x else B) = Except.ok ()) : ¬ c ∧ B = Except.ok () := by
+  by_cases hc : c
+  · rw [if_pos hc] at h; cases h
+  · rw [if_neg hc] at h; exact ⟨hc, h⟩
+
+/-- `CheckFields` reads the format, the version, the listed fields and the size of the JSON -/
+theorem checkFields_congr {e e' : PDU} (hf : e'.fmt = e.fmt) (hv : e'.ver = e.ver) (hc : SameCore e'.f e.f)
+    (hl : e'.json.length ≤ e.json.length) (h : checkFields e = .ok ()) : checkFields e' = .ok () := by
+  have ha : authEventIDs e' = authEventIDs e := by
+    unfold authEventIDs isCreate isCreateF
+    rw [hf, hc.type, hc.stateKey, hc.roomID, hc.auth]
+  have hp : prevEventIDs e' = prevEventIDs e := by
+    unfold prevEventIDs
+    rw [hf, hc.prev]
+  unfold checkFields at h ⊢
+  rw [ha, hp, hv, hc.type, hc.stateKey, hc.sender]
+  cases hae : authEventIDs e with
+  | error x => rw [hae] at h; cases h
+  | ok a =>
+    rw [hae] at h
+    simp only at h ⊢
+    obtain ⟨c1, h⟩ := ite_err_inv h
+    obtain ⟨c2, h⟩ := ite_err_inv h
+    obtain ⟨c3, h⟩ := ite_err_inv h
+    obtain ⟨c4, h⟩ := ite_err_inv h
+    obtain ⟨c5, h⟩ := ite_err_inv h
+    obtain ⟨c6, h⟩ := ite_err_inv h
+    obtain ⟨c7, h⟩ := ite_err_inv h
+    obtain ⟨c8, h⟩ := ite_err_inv h
+    obtain ⟨c9, h⟩ := ite_err_inv h
+    obtain ⟨c10, _⟩ := ite_err_inv h
+    rw [if_neg c1, if_neg (by omega), if_neg c3, if_neg c4, if_neg c5, if_neg c6, if_neg c7, if_neg c8, if_neg c9, if_neg c10]
+
+/-- **`e'` is the event `e`**, as far as the accessors C03 lists can tell: same room version and
+    struct, same type / sender / room ID / state key / content / redacts / depth / timestamp /
+    prev- and auth-event lists (`SameCore`), same stored and reported event ID, same `RoomID()`,
+    `PrevEventIDs()`, `AuthEventIDs()`; not marked redacted; passes `CheckFields`. -/
+structure SameEvent (H : Bytes → Bytes) (e' e : PDU) : Prop where
+  ver : e'.ver = e.ver
+  fmt : e'.fmt = e.fmt
+  core : SameCore e'.f e.f
+  idRaw : e'.f.eventIDRaw = e.f.eventIDRaw
+  eventID : eventID H e' = eventID H e
+  roomID : roomID H e' = roomID H e
+  prev : prevEventIDs e' = prevEventIDs e
+  auth : authEventIDs e' = authEventIDs e
+  notRedacted : e'.redacted = false
+  checked : checkFields e' = .ok ()
+
+theorem sameCore_of {f' f g' g : Fields} {a b : Bytes} {u : Option JVal} (h1 : f' = { g' with eventIDRaw := a })
+    (h2 : f = { g with eventIDRaw := b }) (h3 : g' = { g with unsigned := u }) : SameCore f' f := by
+  subst h1 h2 h3
+  constructor <;> rfl
+
+theorem sameEvent_of {H : Bytes → Bytes} {e' e : PDU} (hv : e'.ver = e.ver) (hf : e'.fmt = e.fmt) (hc : SameCore e'.f e.f)
+    (hr : e'.f.eventIDRaw = e.f.eventIDRaw)
+    (ho : ∀ row, referenceID H row e.ver (.obj e'.obj) = referenceID H row e.ver (.obj e.obj))
+    (hnr : e'.redacted = false) (hck : checkFields e' = .ok ()) : SameEvent H e' e := by
+  have hid : eventID H e' = eventID H e := by
+    unfold eventID
+    rw [hf, hr, hv]
+    simp only [ho]
+  refine ⟨hv, hf, hc, hr, hid, ?_, ?_, ?_, hnr, hck⟩
+  · unfold roomID isCreate isCreateF
+    rw [hf, hid, hc.type, hc.stateKey, hc.roomID]
+  · unfold prevEventIDs
+    rw [hf, hc.prev]
+  · unfold authEventIDs isCreate isCreateF
+    rw [hf, hc.type, hc.stateKey, hc.roomID, hc.auth]
+
+/-- **C03, round trip.**  An event produced by `EventBuilder.Build` — any registered room version,
+    any proto-event whose raw-JSON inputs are JSON values (`ProtoOk`), any time, origin, key ID,
+    random event-ID characters and signature bytes — re-parses from its JSON
+
+    (a) as untrusted input (`NewEventFromUntrustedJSON`): successfully, to an event with the same
+        version, type, sender, room ID, state key, content, redacts, depth, origin_server_ts, prev- and
+        auth-event references, event ID (stored and reported), `RoomID()`; not marked redacted; passing
+        `CheckFields` (`SameEvent`).  The two facts behind it: the content hash `Build` wrote is the one
+        the receiver recomputes after its own stripping (`contentHash_canon`), and every stage of the
+        untrusted constructor accepts the canonical text (`parseUntrusted_intro`);
+    (b) as trusted input (`NewEventFromTrustedJSON`): successfully, to the very same event;
+    (c) through the headered form: `ToHeaderedJSON` succeeds, and every text denoting the value it
+        writes (the event's members followed by `_room_version` and `_event_id`; such texts exist —
+        the compact rendering of that value is one) is read back by `NewEventFromHeaderedJSON` as the
+        very same event;
+
+    and the event itself is not marked redacted and has passed `CheckFields`. -/
+theorem build_roundtrip {H : Bytes → Bytes} {ver : Bytes} {pe : EventBuild.Proto} {now : Nat}
+    {origin kid rand16 sig : Bytes} {e : PDU} (hpe : ProtoOk pe)
+    (hb : EventBuild.build H ver pe now origin kid rand16 sig = .ok e) :
+    (∃ e', parseUntrusted H ver e.json = .ok e' ∧ SameEvent H e' e) ∧
+    parseTrusted H ver false e.json = .ok e ∧
+    (∃ hv, toHeadered H e = .ok hv ∧ (∃ p, parse (encode hv) = some p ∧ p.toJVal = hv) ∧
+      ∀ th p, parse th = some p → p.toJVal = hv → parseHeadered false th = .ok e) ∧
+    e.redacted = false ∧ checkFields e = .ok () := by
+  obtain ⟨row, signed, p, hrow, hsm, henf, hnd, hp, ht, hcf⟩ := build_ok hb
+  have SF := signedFacts hsm
+  have hnum := signed_numsOk hpe hsm
+  have hpj := parse_canon_text hnum hp
+  rw [hpj] at ht
+  obtain ⟨fmt, id, hfmt, d1, d2, d3, hE, hidv1, hidl⟩ := trustedCore_shape ht
+  -- table facts of the version
+  obtain ⟨hfeq, a, ha, _⟩ := C04.row_facts hrow
+  obtain ⟨hwid, hef⟩ := build_row_facts hrow hfmt
+  have hfmtU : fmtOfName row.newEventFromUntrustedJSONFunc = some fmt := by rw [hfeq]; exact hfmt
+  obtain ⟨enf, henf'⟩ : ∃ enf, enforces row = some enf := by
+    unfold enforcedOkVal at henf
+    cases he : enforces row with
+    | none => rw [he] at henf; cases henf
+    | some enf => exact ⟨enf, rfl⟩
+  -- the members of the canonical value: keys, duplicates, text
+  have hkeys : ∀ kv ∈ signed, kv.1 ∈ allKeys := by
+    intro kv hkv
+    rcases SF.keys kv hkv with h | h
+    · rw [h]; exact List.mem_cons_self
+    · exact List.mem_cons_of_mem _ h
+  have hSk := canon_keys hkeys
+  have hev : fmt ≠ .v1 → ∀ kv ∈ signed, kv.1 ≠ b!"event_id" := fun hne => SF.noEventID (hef hne)
+  have hevS : fmt ≠ .v1 → ∀ kv ∈ canonMembers signed, kv.1 ≠ b!"event_id" := fun hne => canon_key_ne (hev hne)
+  have hK := stripKeys_eq fmt (canonMembers signed) hevS
+  obtain ⟨k1, k2, k3⟩ := decode_strip4 fmt (canonMembers signed)
+  have hSd : (JVal.obj (canonMembers signed)).noDupKeys = true := by
+    rw [← canon_obj]; exact noDup_canon _ hnd
+  have htext : encodeCanon (.obj (canonMembers signed)) = encodeCanon (.obj signed) := by
+    rw [← canon_obj]; exact encodeCanon_canon _ hnd
+  have hlen : (encodeCanon (.obj (deleteKeys (stripKeys fmt) (canonMembers signed)))).length ≤
+      (encodeCanon (.obj signed)).length := by
+    rw [← htext]; exact encodeCanon_sublist_length (deleteKeys_sublist _ _)
+  -- the event ID of the later formats; the redaction does not see the receiver's stripping
+  have hidS : fmt ≠ .v1 → referenceID H row ver (.obj (canonMembers signed)) = .ok id := fun hne =>
+    hidl hne (eventIDRaw_nil fmt (members_event_id_nil hSk (hevS hne)))
+  have hrefK : ∀ row', referenceID H row' ver (.obj (deleteKeys (stripKeys fmt) (canonMembers signed))) =
+      referenceID H row' ver (.obj (canonMembers signed)) := by
+    intro row'; simp only [referenceID, hK, redactJSON_strip4]
+  -- the canonical value can be redacted (what `signEvent` redacted, signed and canonicalised)
+  have hredS : ∃ r, redactJSON ver (.obj (canonMembers signed)) = .ok r := by
+    obtain ⟨wh, ns, r, hsig, hr⟩ := SF.redactable
+    have hro : redactObj a wh = .ok r := by simpa [redactJSON, ha, redactWith] using hr
+    obtain ⟨hT, _⟩ := C05.algoOf_ok ha
+    obtain ⟨_, r', _, hr', _⟩ := redactObj_signatures hT (algoOf_tableOk ha) ns hro
+    rw [← hsig] at hr'
+    obtain ⟨v', hv'⟩ := redactObj_canon (foldNodup_of_keys hkeys (keys_nodup_of_noDup hnd)) hnd hr'
+    exact ⟨v', by simp [redactJSON, ha, redactWith, hv']⟩
+  subst hE
+  have hcore : SameCore (received ver fmt (deleteKeys (stripKeys fmt) (canonMembers signed)) id).f
+      ({ (decodeFields fmt (canonMembers signed)).f with eventIDRaw := id } : Fields) :=
+    sameCore_of rfl rfl (by rw [hK]; exact k3)
+  have hcf' : checkFields (received ver fmt (deleteKeys (stripKeys fmt) (canonMembers signed)) id) = .ok () :=
+    checkFields_congr (e := ⟨ver, fmt, false, encodeCanon (.obj signed), canonMembers signed, _⟩) rfl rfl hcore hlen hcf
+  refine ⟨⟨received ver fmt (deleteKeys (stripKeys fmt) (canonMembers signed)) id, ?_, ?_⟩, ?_, ?_, rfl, hcf⟩
+  · -- (a) untrusted
+    refine parseUntrusted_intro hrow hfmtU henf' hp hpj (hasUnderscoreKey_false hSk) ?_ hSd ?_ ?_ ?_ ?_ ?_ ?_ ?_ ?_ hcf'
+    · -- the enforced number check passed in `Build`
+      unfold enforcedOkVal at henf
+      rw [henf'] at henf
+      cases enf with
+      | false => rfl
+      | true =>
+        have hj : jNumbersOk (.obj signed) = true := by simpa using henf
+        have := jNum_canon _ hj
+        rw [canon_obj, ← hpj, jNumbersOk_toJVal] at this
+        simp [this]
+    · rw [hK, k1]; exact d1
+    · rw [hK, k2]; exact d2
+    · rw [hK, k3]; exact d3
+    · exact Nat.le_trans hlen (checkFields_size hcf)
+    · exact contentHash_canon H fmt hnd hkeys hev SF.hash
+    · intro _
+      obtain ⟨r, hr⟩ := hredS
+      exact ⟨r, by rw [hK, redactJSON_strip4]; exact hr⟩
+    · intro hne
+      rw [hrefK]; exact hidS hne
+    · intro h1
+      rw [hK, k3]; exact hidv1 h1
+  · exact sameEvent_of rfl rfl hcore rfl hrefK rfl hcf'
+  · -- (b) trusted
+    show parseTrusted H ver false (encodeCanon (.obj signed)) = _
+    unfold parseTrusted
+    simp only [hrow, hp, hpj]
+    exact ht
+  · -- (c) headered
+    have hide : eventID H (⟨ver, fmt, false, encodeCanon (.obj signed), canonMembers signed,
+        { (decodeFields fmt (canonMembers signed)).f with eventIDRaw := id }⟩ : PDU) = .ok id := by
+      unfold eventID
+      simp only
+      by_cases hc : (fmt == Fmt.v1 || !id.isEmpty) = true
+      · rw [if_pos hc]
+      · rw [if_neg hc]
+        have hne : fmt ≠ .v1 := by intro h; simp [h] at hc
+        simp only [hrow, hidS hne]
+    have hnoh : ∀ kv ∈ canonMembers signed, (kv.1 == b!"_event_id") = false ∧ (kv.1 == b!"_room_version") = false :=
+      fun kv hkv => allKeys_no_header kv.1 (hSk kv hkv)
+    refine ⟨.obj (setFirst b!"_event_id" (.str id) (setFirst b!"_room_version" (.str ver) (canonMembers signed))), ?_, ?_, ?_⟩
+    · unfold toHeadered
+      rw [hide]
+    · have hnS : numsOkMembers (canonMembers signed) = true := by
+        have := parse_numsOk hp
+        rw [hpj] at this
+        simpa [JVal.numsOk] using this
+      exact headered_text hnS (canonMembers_normalised signed) id ver hnoh
+    · intro th p' hpth hpv
+      rw [parseHeadered_intro hpth hpv (fun kv hkv => allKeys_no_header kv.1 (hSk kv hkv)) hrow hwid d1 d2 d3, htext]
+
+/-! ### Non-vacuity of `build_roundtrip`: concrete successful builds (toy hash) -/
+
+/-- a state event with a `-0` in its content, an `unsigned` member, two auth events -/
+def exProto : EventBuild.Proto :=
+  { type := b!"m.room.member", sender := b!"@u:hs", roomID := b!"!r:hs", stateKey := some b!"@u:hs", prev := [b!"$p"],
+    auth := [b!"$a", b!"$b"], redacts := [], depth := 5,
+    content := some (.obj [(b!"membership", .str b!"join"), (b!"n", .num b!"-0")]),
+    unsigned := some (.obj [(b!"age", .num b!"7")]), signatures := none }
+
+/-- a room-version-12 create event (no room ID, no prev / auth events) -/
+def exCreate : EventBuild.Proto :=
+  { exProto with type := b!"m.room.create", stateKey := some [], roomID := [], prev := [], auth := [],
+                 content := some (.obj [(b!"room_version", .str b!"12")]) }
+
+example : ProtoOk exProto ∧ ProtoOk exCreate :=
+  ⟨⟨fun c h => by cases h; decide, fun u h => by cases h; decide, fun s h => by cases h⟩,
+   ⟨fun c h => by cases h; decide, fun u h => by cases h; decide, fun s h => by cases h⟩⟩
+
+def isOk' {α : Type} (x : Except Err α) : Bool :=
+  match x with
+  | .ok _ => true
+  | .error _ => false
+
+/-- `Build` succeeds and the three re-parses succeed (evaluated; the theorem says why) -/
+def roundtrips (ver : Bytes) (pe : EventBuild.Proto) : Bool :=
+  match EventBuild.build C04.H0 ver pe 1000 b!"hs" b!"ed25519:1" b!"abcdefghijklmnop" b!"c2ln" with
+  | .ok e => isOk' (parseUntrusted C04.H0 ver e.json) && isOk' (parseTrusted C04.H0 ver false e.json) &&
+      (match toHeadered C04.H0 e with
+       | .ok hv => isOk' (parseHeadered false (encode hv))
+       | .error _ => false)
+  | .error _ => false
+
+set_option maxRecDepth 100000 in
+/-- event format 1 (room version 1), event format 2 without the enforced number check (room version 5),
+    with it (room version 10; `-0` would be refused there), and a version-12 create event -/
+example : roundtrips b!"1" exProto = true ∧ roundtrips b!"5" exProto = true ∧
+    roundtrips b!"10" { exProto with content := some (.obj [(b!"membership", .str b!"join")]) } = true ∧
+    roundtrips b!"12" exCreate = true := by decide +kernel
 
 /-! ## Non-vacuity (room version 10, toy hash) -/
 
